@@ -65,9 +65,13 @@ CONSTANTS
   MaxKey,          \* bound on proposed keys (state constraint KeyBound)
   Gossip,          \* BOOLEAN: Learn enabled
   Joins,           \* BOOLEAN: admitted nodes start arbitrating (Join)
-  Faults,          \* subset of {"lost", "fail", "timeout", "late"}: fault actions enabled. {"timeout", "late"}
-                   \* already covers the others up to garbage in net: lost = timeout then late, fail =
-                   \* timeout and never late
+  Faults,          \* subset of {"lost", "fail", "timeout", "late"}: fault actions enabled. The exhaustive
+                   \* configurations use {"lost", "fail"}, which covers the other two: executing a
+                   \* request only ever ADDS its key to the juror's approvals (on every path) and a late
+                   \* reply is discarded, so a late execution at time t3 of a request that timed out at
+                   \* t1 equals "lost" at t1 if no request for the same key reached that juror in
+                   \* between, and equals "fail" otherwise (the key is in approvals by then anyway).
+                   \* Generated schedules and trace validation use all four.
   InitView,        \* [InitMember -> SUBSET keys]   views may be stale / different
   InitUnhealthy,   \* [InitMember -> SUBSET keys]   keys the member's view holds as not healthy
   InitApprovals,   \* [InitMember -> SUBSET keys]   approvals left by earlier joins
